@@ -301,4 +301,25 @@ func c12Hook(c *Ctx) {
 	}
 	c.Check(uses > 0, R, "hook:SetConnectionIDLimit uses its argument", c.P.Pos(f.Pos()),
 		"newUClientConnection passes the advertised active_connection_id_limit to this hook; it drops the value, so the manager keeps enforcing the constant")
+	// the limit the manager enforces is this endpoint's OWN advertised value: the hook is called only where the own
+	// parameters are built, never with the peer's parameters
+	ctor := c.funcVar("", "newUClientConnection")
+	obj := c.obj("", "connIDManager", "SetConnectionIDLimit")
+	peer := c.fld("", "Conn", "peerParams")
+	n := 0
+	for _, cs := range c.P.CallSites(obj) {
+		n++
+		inCtor := cs.Fn == ctor || rootFn(cs.Fn) == rootFn(ctor) && cs.Fn.Parent() == ctor.Parent()
+		fromPeer := false
+		if ci, ok := cs.Instr.(ssa.CallInstruction); ok && len(ci.Common().Args) == 2 {
+			if _, base := loadedField(stripConv(ci.Common().Args[1])); base != nil {
+				if Load(peer)(base) {
+					fromPeer = true
+				}
+			}
+		}
+		c.Check(inCtor && !fromPeer, R, "hook:SetConnectionIDLimit is called with the own advertised limit only@"+funcName(cs.Fn), c.P.InstrPos(cs.Instr),
+			"active_connection_id_limit bounds what the PEER may issue to this endpoint: the enforced value is the one this endpoint advertised, not the one the peer advertised (that one bounds connIDGenerator)")
+	}
+	c.Floor(R, "SetConnectionIDLimit call sites", n, 1)
 }
